@@ -530,3 +530,159 @@ func ruleSecondMetaProbing(c *Ctx, id string) {
 		c.check(id+":(*DB).getPageSizeFromSecondMeta:every-candidate-probed", fn, reads[0].Pos(), fmt.Sprintf("every power-of-two offset 1KiB..16MiB that lies inside the file is read, whatever the file size is a multiple of (executed for %d file sizes)", rows), bad == "", bad)
 	})
 }
+
+// ---------------------------------------------------------------------------------------------
+// C14.R8 / C17.R7 / C03.R12  data-file-closed-only-by-close
+//
+// The descriptor in DB.file carries the database: the file lock, the writer (ops.writeAt is its bound WriteAt), every
+// hot backup's section reader. Only (*DB).close may close it. Any other Close whose receiver can be DB.file —
+// decided flow-sensitively through local variables and through variables captured by deferred closures — shuts the
+// database down under the feet of running transactions: commits and backups in flight fail (seed C14c: WriteTo's
+// deferred close of the reopened handle registered BEFORE the fallback `f = tx.db.file`).
+func ruleDataFileClosedOnlyByClose(c *Ctx, id string) {
+	c.rule(id, "data-file-closed-only-by-close", 2, func() {
+		fileF := c.dbField("file")
+		storesTo := func(cell ssa.Value) []*ssa.Store {
+			var out []*ssa.Store
+			if cell.Referrers() == nil {
+				return nil
+			}
+			for _, r := range *cell.Referrers() {
+				if st, ok := r.(*ssa.Store); ok && st.Addr == cell {
+					out = append(out, st)
+				}
+			}
+			return out
+		}
+		otherStore := func(cell ssa.Value, self ssa.Instruction) func(ssa.Instruction) bool {
+			return func(in ssa.Instruction) bool {
+				st, ok := in.(*ssa.Store)
+				return ok && st.Addr == cell && in != self
+			}
+		}
+		var may func(v ssa.Value, at ssa.Instruction, depth int) string
+		// cellMay: can the cell hold DB.file when the instruction `at` (in the cell's function) executes?
+		cellMay := func(cell ssa.Value, at ssa.Instruction, depth int) string {
+			for _, st := range storesTo(cell) {
+				why := may(st.Val, st, depth+1)
+				if why == "" {
+					continue
+				}
+				if reach([]ssa.Instruction{st}, nil, otherStore(cell, st), nil)[at] {
+					return why + " (assigned at " + c.P.Position(st.Pos()) + ")"
+				}
+			}
+			return ""
+		}
+		may = func(v ssa.Value, at ssa.Instruction, depth int) string {
+			if depth > 6 || v == nil {
+				return ""
+			}
+			switch x := v.(type) {
+			case *ssa.Phi:
+				for _, e := range x.Edges {
+					if w := may(e, at, depth+1); w != "" {
+						return w
+					}
+				}
+			case *ssa.ChangeType:
+				return may(x.X, at, depth+1)
+			case *ssa.UnOp:
+				if x.Op != token.MUL {
+					return ""
+				}
+				switch a := x.X.(type) {
+				case *ssa.FieldAddr:
+					if fieldOfAddr(a) == fileF {
+						return "the receiver is DB.file"
+					}
+				case *ssa.Alloc:
+					return cellMay(a, x, depth)
+				case *ssa.FreeVar:
+					// a variable of the enclosing function: where does the closure run?
+					g := a.Parent()
+					parent := g.Parent()
+					if parent == nil {
+						return ""
+					}
+					idx := -1
+					for i, fv := range g.FreeVars {
+						if fv == a {
+							idx = i
+						}
+					}
+					verdict := ""
+					eachInstr(parent, func(in ssa.Instruction) {
+						mc, ok := in.(*ssa.MakeClosure)
+						if !ok || mc.Fn != ssa.Value(g) || idx < 0 || idx >= len(mc.Bindings) || verdict != "" {
+							return
+						}
+						cell := mc.Bindings[idx]
+						if _, isAlloc := cell.(*ssa.Alloc); !isAlloc {
+							// bound by value or from a further closure level: fall back to the value itself
+							verdict = may(cell, mc, depth+1)
+							return
+						}
+						for _, r := range *mc.Referrers() {
+							switch u := r.(type) {
+							case *ssa.Defer:
+								// runs at the exits: the stores that are the last one before an exit, on a path through the defer
+								for _, st := range storesTo(cell) {
+									why := may(st.Val, st, depth+1)
+									if why == "" {
+										continue
+									}
+									after := reach([]ssa.Instruction{st}, nil, otherStore(cell, st), nil)
+									reachesExit := false
+									for in2 := range after {
+										switch in2.(type) {
+										case *ssa.Return, *ssa.RunDefers:
+											reachesExit = true
+										}
+									}
+									if !reachesExit {
+										continue
+									}
+									if after[u] || reach([]ssa.Instruction{u}, nil, nil, nil)[st] {
+										verdict = why + " when the deferred closure runs (assigned at " + c.P.Position(st.Pos()) + ", defer registered at " + c.P.Position(u.Pos()) + ")"
+									}
+								}
+							case *ssa.Call:
+								if u.Call.Value == ssa.Value(mc) {
+									if w := cellMay(cell, u, depth); w != "" {
+										verdict = w
+									}
+								} else if w := cellMay(cell, u, depth); w != "" {
+									verdict = w
+								}
+							default:
+								// escapes: any store counts
+								for _, st := range storesTo(cell) {
+									if w := may(st.Val, st, depth+1); w != "" {
+										verdict = w + " (the closure escapes)"
+									}
+								}
+							}
+						}
+					})
+					return verdict
+				}
+			}
+			return ""
+		}
+		n := 0
+		for _, fn := range c.P.FnsIn(rootPkg) {
+			if shortFn(topLevel(fn)) == "bbolt.(*DB).close" {
+				continue
+			}
+			for _, ci := range callsIn(fn, "os.(*File).Close") {
+				n++
+				in := ci.(ssa.Instruction)
+				why := may(ci.Common().Args[0], in, 0)
+				c.check(fmt.Sprintf("%s:%s:Close#%d", id, shortFn(fn), n), fn, in.Pos(), "a file closed outside (*DB).close is never the database's own handle DB.file (flow-sensitive through locals and deferred closures)", why == "", "this Close can shut the database's data file: "+why)
+			}
+		}
+		cl := c.fn("bbolt.(*DB).close")
+		c.check(id+":(*DB).close:closes-DB.file", cl, cl.Pos(), "(*DB).close is the one place that closes DB.file", len(callsIn(cl, "os.(*File).Close")) >= 1, "close no longer closes the file")
+	})
+}
